@@ -191,11 +191,21 @@ type Trk struct {
 	OnAnn func(n int, r vh.AnnReq)
 	mu    sync.Mutex
 	n     int
-	seen  map[string]bool
+	seen  map[string]*dgram // UDP: first datagram per (connection id, action, transaction id)
+	RtxIV int64             // interval answered to the retransmission of a datagram that was ignored (kind "rtx")
+	StopDelay time.Duration // delay of the answer to "stopped" (keeps the torrent in Stopping for a while)
 	Count atomic.Int64 // all announces, stopped included
 	Last  atomic.Int64 // arrival (ms) of the latest announce
 	TorOf int          // torrent this tracker is dedicated to (0 = by info-hash only)
 	Quiet bool         // do not write `ann` lines (the caller records the announces on the client side)
+}
+
+type dgram struct {
+	raw      string
+	t        int
+	at       time.Time
+	answered time.Time // zero: not answered yet
+	wantRtx  bool      // ignored on purpose: the retransmission is answered
 }
 
 func (k *Trk) URL() string {
@@ -215,7 +225,7 @@ func (k *Trk) Close() {
 
 // NewTrk starts a scripted tracker; k is its 1-based index in the scenario.
 func NewTrk(s *Sc, k int, udp bool, plan func(n int, r vh.AnnReq) Rep) (*Trk, error) {
-	t := &Trk{S: s, K: k, UDP: udp, Plan: plan, seen: map[string]bool{}}
+	t := &Trk{S: s, K: k, UDP: udp, Plan: plan, seen: map[string]*dgram{}, RtxIV: 1800}
 	var err error
 	if udp {
 		t.U, err = vh.StartUDPTracker(nil, fmt.Sprintf("%s.k%d", s.Name, k), t.script)
@@ -227,23 +237,42 @@ func NewTrk(s *Sc, k int, udp bool, plan func(n int, r vh.AnnReq) Rep) (*Trk, er
 
 func (k *Trk) script(r vh.AnnReq) vh.AnnReply {
 	s := k.S
-	if k.UDP && len(r.Raw) >= 32 { // a retransmitted datagram (same transaction id) is the same announce
-		key := r.Raw[0:32]
-		k.mu.Lock()
-		dup := k.seen[key]
-		k.seen[key] = true
-		k.mu.Unlock()
-		if dup {
-			return vh.AnnReply{Drop: true}
-		}
-	}
-	k.Count.Add(1)
 	now := s.Ms(r.At)
-	k.Last.Store(int64(now))
 	t := s.TorIndex(r.InfoHash)
 	if t == 0 {
 		t = k.TorOf
 	}
+	var dg *dgram
+	if k.UDP && len(r.Raw) >= 32 {
+		// a datagram with a known (connection id, action, transaction id) is a retransmission of that announce: BEP 15 resends
+		// the SAME bytes; it is recorded (`rtx`) and compared with the first one instead of counting as a new announce
+		key := r.Raw[0:32]
+		k.mu.Lock()
+		first := k.seen[key]
+		if first == nil {
+			dg = &dgram{raw: r.Raw, t: t, at: r.At}
+			k.seen[key] = dg
+		}
+		k.mu.Unlock()
+		if first != nil {
+			k.mu.Lock()
+			late := !first.answered.IsZero() && r.At.Sub(first.answered) > time.Second
+			answer := first.wantRtx && first.answered.IsZero()
+			if answer {
+				first.answered = r.At
+			}
+			k.mu.Unlock()
+			line := map[string]any{"k": k.K, "t": first.t, "now": now, "same": r.Raw == first.raw, "late": late, "answered": answer,
+				"res": "ok", "iv": k.RtxIV, "miv": 0, "dur": 0, "ih": r.InfoHash, "pid": r.PeerID, "after_ms": int(r.At.Sub(first.at) / time.Millisecond)}
+			s.Line("rtx", line)
+			if answer {
+				return vh.AnnReply{Interval: vh.I64(k.RtxIV)}
+			}
+			return vh.AnnReply{Drop: true}
+		}
+	}
+	k.Count.Add(1)
+	k.Last.Store(int64(now))
 	ev := r.Event
 	if ev == "" {
 		ev = "none"
@@ -255,7 +284,12 @@ func (k *Trk) script(r vh.AnnReq) vh.AnnReply {
 		if !k.Quiet {
 			s.Line("ann", line)
 		}
-		return vh.AnnReply{Interval: vh.I64(1800)}
+		if dg != nil {
+			k.mu.Lock()
+			dg.answered = time.Now()
+			k.mu.Unlock()
+		}
+		return vh.AnnReply{Interval: vh.I64(1800), Delay: k.StopDelay}
 	}
 	k.mu.Lock()
 	k.n++
@@ -306,8 +340,21 @@ func (k *Trk) script(r vh.AnnReq) vh.AnnReply {
 	case "never":
 		out = vh.AnnReply{Drop: true}
 		res = "never"
+	case "rtx": // UDP: ignore this datagram, answer its retransmission
+		out = vh.AnnReply{Drop: true}
+		res = "never"
+		if dg != nil {
+			k.mu.Lock()
+			dg.wantRtx = true
+			k.mu.Unlock()
+		}
 	default:
 		s.Fail("unknown reply kind %q", rep.Kind)
+	}
+	if dg != nil && !out.Drop {
+		k.mu.Lock()
+		dg.answered = time.Now()
+		k.mu.Unlock()
 	}
 	line["res"], line["iv"], line["miv"], line["dur"], line["nxt"], line["kind"], line["n"] = res, clamp(iv), clamp(miv), dur, rep.Up, rep.Kind, n
 	if !k.Quiet {
